@@ -24,7 +24,7 @@ MESSAGES = [b"", b"down for maintenance", b"<b>back soon</b> & \"quotes\"", b"{{
 
 def gen_history(rnd, n, profile=None):
     """A list of abstract commands.  profile: dict of weights."""
-    w = {"deploy": 8, "deploy_fail": 3, "rollout_deploy": 2, "rollout_set": 2, "rollout_stop": 1, "pause": 2,
+    w = {"deploy": 8, "deploy_fail": 3, "redeploy_same_fail": 0, "flap": 0, "rollout_deploy": 2, "rollout_set": 2, "rollout_stop": 1, "pause": 2,
          "stop": 2, "resume": 2, "remove": 2, "restart": 1}
     if profile:
         w.update(profile)
@@ -59,6 +59,18 @@ def gen_history(rnd, n, profile=None):
                     c["tls"], c["cert"], c["hosts"] = True, "none", [b"*.example.com"] + c["hosts"][:1]
                 # "conflict": left to chance / to the dedicated profile
             hist.append(c)
+        elif k == "redeploy_same_fail":
+            prev = [c for c in hist if c["op"] == "deploy" and c["name"] == name]
+            if not prev:
+                continue
+            c = dict(prev[-1])
+            c["topts"] = (c["topts"] + 1 + rnd.randrange(len(TOPTS) - 1)) % len(TOPTS)     # other target options
+            c["targets"] = [{"name": t, "healthy": True} for t in rnd.sample(GOOD_TARGETS, rnd.choice([1, 2]))]
+            if rnd.random() < 0.5:
+                c["targets"].insert(rnd.randrange(len(c["targets"]) + 1), {"name": rnd.choice(BAD_TARGETS), "healthy": True})
+            else:
+                c["targets"].insert(rnd.randrange(len(c["targets"]) + 1), {"name": rnd.choice(DEAD_TARGETS), "healthy": False})
+            hist.append(c)
         elif k == "rollout_deploy":
             ts = [{"name": t, "healthy": True} for t in rnd.sample(GOOD_TARGETS, rnd.choice([1, 2]))]
             if rnd.random() < 0.15:
@@ -81,6 +93,14 @@ def gen_history(rnd, n, profile=None):
             hist.append({"op": k, "name": name})
         elif k == "restart":
             hist.append({"op": "restart"})
+        elif k == "flap" and hist:
+            # attached to the previous command: after its observation window one target of a deployed service
+            # fails one probe and recovers (nothing observable may change)
+            deployed = [c for c in hist if c["op"] == "deploy" and c["targets"] and all(t["healthy"] for t in c["targets"])]
+            if deployed:
+                tg = rnd.choice(rnd.choice(deployed)["targets"])["name"]
+                if not any(tg in BAD_TARGETS for _ in [0]):
+                    hist[-1] = dict(hist[-1], flap_after=tg)
     return hist
 
 
@@ -92,10 +112,11 @@ def matrix(rnd, hist, k=6):
     paths = [b"/", b"/api", b"/api/", b"/api/v1/x", b"/apiary", b"/apix", b"/app", b"/app/z", b"/docs/a?b=c", b"/up",
              b"/health", b"/other?q=1"]
     reqs = []
+    allowed = sorted({a for c in hist if c["op"] == "rollout_set" for a in c["allow"]}) or [b"alice"]
     for _ in range(k):
         uri = rnd.choice(paths)
         reqs.append({"host": rnd.choice(concrete), "uri": uri, "tls": rnd.random() < 0.25,
-                     "cookie": rnd.choice([None, None, b"alice", b"zed", b""]),
+                     "cookie": rnd.choice([None, None, rnd.choice(allowed), b"zed", b""]),
                      "method": rnd.choice(["GET", "GET", "POST"])})
     return reqs
 
@@ -137,6 +158,9 @@ def to_scenario(hist, matrices):
             steps.append({"op": "request", "id": "q%d_%d" % (i, j), "async": True, "host": H(q["host"]), "uri": H(q["uri"]),
                           "tls": q["tls"], "method": q["method"], "headers": hdrs})
         steps.append({"op": "sleep", "ns": PROBE_WINDOW + SEC // 2 + 7, "id": "w%d" % i})
+        if c.get("flap_after"):
+            steps.append({"op": "probe_script", "targets": [{"name": H(c["flap_after"]), "probes": ["refused", "ok"]}]})
+            steps.append({"op": "sleep", "ns": 2 * SEC + SEC // 2 + 3, "id": "f%d" % i})
     return {"steps": steps}
 
 
